@@ -733,5 +733,65 @@ func TestC10MountPoint(t *testing.T) {
 			}
 			rec.Case(n >= 0 && n < len(full), canonJSON(c), func() any { return c }, "mount-point", "holds:"+st, "enc:"+enc)
 		}
+		// crash points: whatever the writer does after the rename was refused, a kill on entry to any of its
+		// calls on the Spec directory must leave the complete previous or the complete new content
+		if tl.strace == "" {
+			rec.Label("env:strace-unavailable-skipped")
+			return
+		}
+		logPath := filepath.Join(root, "strace.log")
+		prepare := func() (*c10Setup, string, bool) {
+			s := c10Prepare(t, root, "old-file-and-bystander", target, oldSpec)
+			s.newImage = specImage(newSpec)
+			p := filepath.Join(s.dir, target)
+			return s, p, unix.Mount(p, p, "", unix.MS_BIND, "") == nil
+		}
+		s, p, ok := prepare()
+		if !ok {
+			return
+		}
+		_, err := tl.run(logPath, "", "write", s.dir, target, specFile)
+		_ = unix.Unmount(p, unix.MNT_DETACH)
+		window, _, _, _, perr := parseStrace(logPath)
+		if err != nil || perr != nil || len(window) == 0 {
+			rec.Label("env:strace-unavailable-skipped")
+			return
+		}
+		fds := map[string]bool{}
+		var targets []straceEvent
+		for _, ev := range window {
+			if touchesDir(ev, s.dir, fds) {
+				if ev.name == "openat" {
+					if m := reRet.FindStringSubmatch(ev.text); m != nil {
+						fds[m[1]] = true
+					}
+				}
+				if ev.name != "newfstatat" && ev.name != "close" {
+					targets = append(targets, ev)
+				}
+			}
+		}
+		for k, ev := range targets {
+			s, p, ok := prepare()
+			if !ok {
+				return
+			}
+			inject := fmt.Sprintf("%s:when=%d:signal=SIGKILL", ev.name, ev.ordinal)
+			_, _ = tl.run(logPath, inject, "write", s.dir, target, specFile)
+			_, _, _, killed, perr := parseStrace(logPath)
+			msg, st := c10Observe(s)
+			if uerr := unix.Unmount(p, unix.MNT_DETACH); uerr != nil {
+				t.Fatalf("VERIF-HARNESS cannot unmount %s: %v", p, uerr)
+			}
+			if perr != nil || !killed {
+				rec.Excluded("fault-did-not-land-on-the-intended-call")
+				continue
+			}
+			c := c10Case{Spec: json.RawMessage(specImage(newSpec)), Encoding: enc, Initial: "old-file-is-a-mount-point", Mode: "signal=SIGKILL", Call: fmt.Sprintf("#%d %s", k, clip(ev.text, 120)), Result: "killed; directory holds " + st}
+			if msg != "" {
+				t.Fatalf("C10 violated: %s\nthe previous Spec file is a mount point (rename onto it fails with EBUSY); writer killed on entry to call %s\nencoding %s\nSpec: %s", msg, c.Call, enc, clip(specImage(newSpec), 1500))
+			}
+			rec.Case(true, canonJSON(c), func() any { return c }, "mount-point", "mount-point-writer-killed", "call:"+ev.name, "holds:"+st, "enc:"+enc)
+		}
 	})
 }
